@@ -135,7 +135,7 @@ func configuredDefaults(bt *built) map[string]confDefault {
 	d := bt.sdef
 	add := func(path string, iv InputVal, def *schema.InputValueDefinition) {
 		if iv.Def != nil && def != nil {
-			nb := &builder{d: d, out: bt}
+			nb := &builder{d: d, out: bt, noNil: true}
 			out[path] = confDefault{Typ: def.Type, Conf: def.DefaultValue, Val: *iv.Def, Want: nb.goValue(normalForm(d, *iv.Def, iv.Type), iv.Type, true)}
 		}
 	}
@@ -176,6 +176,9 @@ func (h *harness) runCase(c *Case) (fails []failure, rejected bool) {
 	bt, s, err := safeBuild(c.S)
 	if err != nil {
 		h.count("schema.New error: " + errClass(err.Error()))
+		if c.S.hasIllegalName() {
+			h.count("schema:rejected-with-an-illegal-name")
+		}
 		return nil, true
 	}
 	fail := func(f failure) { fails = append(fails, f) }
@@ -794,6 +797,9 @@ func (h *harness) distribution(d *SDef) {
 	h.count("schema:deprecated-members:" + bucket(nDepr))
 	h.count(fmt.Sprintf("schema:custom-directives:%d", len(d.Dirs)))
 	h.count(fmt.Sprintf("schema:unlisted-directive-definitions:%d", len(d.UDirs)))
+	if d.hasIllegalName() {
+		h.count("schema:accepted-with-an-illegal-name")
+	}
 	h.appliedStats(d)
 }
 
